@@ -33,11 +33,40 @@ def gen_txn(rnd):
             if rnd.random() < 0.12:
                 tags.append(w)
         rnd.shuffle(tags)
-    m = rnd.choice(['Acme', 'acme', 'Bolt', 'Café', 'D"q', 'E F', 'E_F'])
-    c = rnd.choice(['Food', 'Bills', 'Fun', ''])
-    s = rnd.choice(['a', 'b', ''])
+    m = rnd.choice(MERCHANTS)
+    c = rnd.choice(['Food', 'Bills', 'Fun', '', 'Food ', 'food'])
+    s = rnd.choice(['a', 'b', '', ' a', 'A'])
     d = f'{rnd.choice([2024, 2025])}-{rnd.randint(1, 12):02d}-{rnd.randint(1, 28):02d}'
-    return {'a': a, 'tags': tags, 'm': m, 'c': c, 's': s, 'd': d, 'src': rnd.choice(['Amex', 'Chase', 'Chase', 'Bank'])}
+    t = {'a': a, 'tags': tags, 'm': m, 'c': c, 's': s, 'd': d, 'src': rnd.choice(['Amex', 'Chase', 'Chase', 'Bank'])}
+    if rnd.random() < 0.3:
+        t['noise'] = gen_noise(rnd)
+    return t
+
+
+# names that differ only by surrounding blanks, letter case or Unicode normal form are DIFFERENT merchants
+MERCHANTS = ['Acme', 'acme', 'Bolt', 'Café', 'D"q', 'E F', 'E_F', 'Acme ', ' Acme', 'Acme\t', 'ACME', 'Cafe\u0301', 'E  F', '']
+
+
+def gen_noise(rnd):
+    """Other things a classified transaction carries (rule provenance, extra fields, ...). None of it is the
+    transaction's own tag list or amount, so none of it may influence any figure."""
+    n = {}
+    if rnd.random() < 0.8:
+        mt = [casing(rnd, w) for w in SPECIAL if rnd.random() < 0.5]
+        n['match_info'] = {'pattern': rnd.choice(['X', None, 'income']), 'source': rnd.choice(['user', 'auto']), 'tags': mt,
+                           'tag_sources': {x: {'rule': 'R', 'pattern': 'X'} for x in mt}}
+    if rnd.random() < 0.4:
+        n['extra_fields'] = {'tags': ['income'], 'kind': 'transfer', 'amount': -1}
+    if rnd.random() < 0.4:
+        n['location'] = rnd.choice(['income', 'WA', None])
+    if rnd.random() < 0.4:
+        n['raw_description'] = rnd.choice(['INCOME TRANSFER', 'investment', ''])
+    for k in ('is_income', 'is_transfer', 'excluded', 'is_credit'):
+        if rnd.random() < 0.2:
+            n[k] = True
+    if rnd.random() < 0.2:
+        n['category_tags'] = ['investment']
+    return n
 
 
 def gen_cases(seed, n):
@@ -62,6 +91,25 @@ def gen_cases(seed, n):
         txns += [{'a': 128, 'tags': [], 'm': 'Z', 'c': 'C', 's': '', 'd': '2024-04-09'}, {'a': 64, 'tags': ['Transfer'], 'm': 'Z', 'c': 'C', 's': '', 'd': '2025-04-09'}]
         for order in (txns, txns[::-1]):
             cases.append({'txns': order, 'perm': list(reversed(range(len(order)))), 'split': 1, 'singles': False})
+    # provenance/extra data that names special tags while the transaction's own tag list says otherwise
+    for own in ([], None, ['food'], ['Transfer'], ['income']):
+        for mt in (['income'], ['investment'], ['transfer'], [], ['Income', 'Transfer']):
+            txns = [{'a': a, 'tags': own, 'm': 'Shop', 'c': 'C', 's': '', 'd': '2025-03-0%d' % (i + 1),
+                     'noise': {'match_info': {'pattern': 'SHOP', 'source': 'user', 'tags': list(mt)},
+                               'extra_fields': {'tags': list(mt)}, 'raw_description': ' '.join(mt)}}
+                    for i, a in enumerate((250 * 64, -300 * 64, 0))]
+            cases.append({'txns': txns, 'perm': [2, 1, 0], 'split': 1, 'singles': True})
+    # merchant / category names that are equal only after trimming, case folding or normalisation
+    for names in (['Corner Cafe', 'Corner Cafe '], [' Corner Cafe', 'Corner Cafe'], ['Corner Cafe', 'CORNER CAFE'],
+                  ['Caf\u00e9', 'Cafe\u0301'], ['A\tB', 'A B'], ['A  B', 'A B'], ['Shop\n', 'Shop'], ['', ' ']):
+        for kind in ('m', 'c', 's'):
+            txns = []
+            for i, a in enumerate((640, 1280, -64, 3200, 64)):
+                t = {'a': a, 'tags': [], 'm': 'M', 'c': 'C', 's': 'S', 'd': '2025-05-0%d' % (i + 1)}
+                t[kind] = names[i % 2]
+                txns.append(t)
+            for order in (txns, txns[::-1]):
+                cases.append({'txns': order, 'perm': [1, 0, 3, 2, 4], 'split': 2, 'singles': False})
     for trip in itertools.islice(itertools.combinations(base, 3), 0, 60):
         for perm in itertools.permutations(range(3)):
             cases.append({'txns': list(trip), 'perm': list(perm), 'split': 1})
@@ -146,6 +194,9 @@ def oracle(case, r):
                     merged(a['by_category'], b['by_category'], 2) != f['by_category'] or \
                     merged(a['by_month'], b['by_month'], 1) != f['by_month']:
                 bad.append('partition-dependence:breakdowns')
+    if 'plain' in r:
+        if any(r['plain'].get(k) != f.get(k) for k in f if k != 'inexact'):
+            bad.append('depends-on-data-other-than-tags-and-amount')
     if 'singles' in r:
         for t, s in zip(txns, r['singles']):
             if 'error' in s:
@@ -282,7 +333,7 @@ def main(tier):
                               'shrunk_from': len(c['txns'])})
     model_idx = []
     if not tfails and res['ok']:
-        mc = cases if tier == 'thorough' else cases[:1 + 360 + 500]
+        mc = cases if tier == 'thorough' else cases[:1 + 4 + 12 + 25 + 48 + 360 + 400]
         bad, model_idx, err = model_check(mc, results[:len(mc)])
         if bad is None:
             broken.append({'kind': 'broken-correspondence', 'obligation': 'model_vs_impl(C06.Model.analyze, analyze_transactions)',
